@@ -32,26 +32,6 @@ Proof.
   split; [vm_compute; reflexivity|]. split; reflexivity.
 Qed.
 
-(* finding product-empty-operand-neutral: every hypothesis except "items <> []" holds *)
-Lemma product_empty_operand_witness :
-  exists s others ls p l,
-    Forall (fun o => wf_sweep o = true) (s :: others)
-    /\ NoDup (concat (map all_keys (s :: others)))
-    /\ Forall local_sweep (s :: others)
-    /\ Forall (fun o => in_item_order o = true) (s :: others)
-    /\ (dims s = None -> Forall (fun o => dims o = None) others)
-    /\ mapM generate (s :: others) = Ok ls
-    /\ product s others = Ok p /\ generate p = Ok l /\ len p = Ok (length l)
-    /\ length l = 2 /\ length (cart_union ls) = 0.
-Proof.
-  exists w_a, [plain [] None]. eexists. eexists. eexists.
-  split; [repeat constructor|]. split; [apply nodup_str_NoDup; reflexivity|].
-  split; [repeat constructor; apply local_plain|]. split; [repeat constructor|].
-  split; [intros _; repeat constructor|].
-  split; [vm_compute; reflexivity|]. split; [vm_compute; reflexivity|]. split; [vm_compute; reflexivity|].
-  split; [vm_compute; reflexivity|]. split; reflexivity.
-Qed.
-
 (* ---------- non-vacuity: a product of three sweeps with a zip, constants, derivers and excludes ---------- *)
 Definition get1 (k : str) : deriver := fun c => do v <- dgetE c k; Ok (SL [SS k; v]).
 Definition is1 (k : str) : predicate := fun c => do v <- dgetE c k; Ok (sx_eqb v (SI 1)).
@@ -76,7 +56,6 @@ Lemma product_example_hyps :
   /\ NoDup (concat (map all_keys [e_1; e_2; e_3]))
   /\ Forall local_sweep [e_1; e_2; e_3]
   /\ Forall (fun o => in_item_order o = true) [e_1; e_2; e_3]
-  /\ Forall (fun o => items o <> []) [e_1; e_2; e_3]
   /\ (dims e_1 = None -> Forall (fun o => dims o = None) [e_2; e_3])
   /\ exists ls, mapM generate [e_1; e_2; e_3] = Ok ls /\ length (cart_union ls) = 8.
 Proof.
@@ -90,30 +69,8 @@ Proof.
     - split.
       + apply Forall_cons; [|apply Forall_nil]. apply local_get1. vm_compute. tauto.
       + intros c c' _. reflexivity. }
-  split; [repeat constructor|]. split; [repeat constructor; discriminate|].
+  split; [repeat constructor|].
   split; [discriminate|]. eexists. split; vm_compute; reflexivity.
-Qed.
-
-(* finding filtered-ignores-empty-dimension: no constants, no exclude, no derivers, well formed, value lists without
-   duplicates, keys among the combination keys - the sweep has no combinations but the filtered sweep has two *)
-Definition w_ab : sweep := plain [(s "a", [SI 1; SI 2]); (s "b", [])] None.
-
-Lemma filtered_empty_dimension_witness :
-  exists sw keys f l l',
-    wf_sweep sw = true /\ in_item_order sw = true
-    /\ consts sw = None /\ excl sw = None /\ ders sw = None
-    /\ Forall (fun kv => nodup_vals (snd kv) = true) (items sw)
-    /\ keys <> [] /\ NoDup keys /\ incl keys (concat (groups sw))
-    /\ generate sw = Ok l /\ filtered sw keys = Ok f /\ generate f = Ok l'
-    /\ l = [] /\ length l' = 2.
-Proof.
-  exists w_ab, [s "a"]. eexists. eexists. eexists.
-  split; [reflexivity|]. split; [reflexivity|]. split; [reflexivity|]. split; [reflexivity|].
-  split; [reflexivity|]. split; [repeat constructor|]. split; [discriminate|].
-  split; [apply nodup_str_NoDup; reflexivity|].
-  split; [intros k [<-|[]]; vm_compute; tauto|].
-  split; [vm_compute; reflexivity|]. split; [vm_compute; reflexivity|]. split; [vm_compute; reflexivity|].
-  split; reflexivity.
 Qed.
 
 (* non-vacuity of the hypotheses of filtered_no_derivers *)
@@ -126,7 +83,6 @@ Lemma filtered_example_hyps :
   /\ opt_keys (consts e_f) = [] /\ excl e_f = None /\ ders e_f = None
   /\ Forall (fun kv => NoDup (snd kv)) (items e_f)
   /\ [s "c"; s "a"] <> [] /\ NoDup [s "c"; s "a"] /\ incl [s "c"; s "a"] (concat (groups e_f))
-  /\ Forall (fun g => 0 < glen (items e_f) g) (groups e_f)
   /\ exists l, generate e_f = Ok l /\ length l = 6.
 Proof.
   split; [reflexivity|]. split; [reflexivity|]. split; [reflexivity|]. split; [reflexivity|]. split; [reflexivity|].
@@ -134,5 +90,5 @@ Proof.
   { repeat constructor; cbn; intros H; repeat (destruct H as [H|H]; try discriminate); auto. }
   split; [discriminate|]. split; [apply nodup_str_NoDup; reflexivity|].
   split; [intros k [<-|[<-|[]]]; vm_compute; tauto|].
-  split; [repeat constructor|]. eexists. split; vm_compute; reflexivity.
+  eexists. split; vm_compute; reflexivity.
 Qed.
